@@ -94,6 +94,13 @@ func (ctx *Context) Parse(value string) error {
 		}
 	}
 
+	if p.cur.data.codeOverflow {
+		// 指令超出容量的部分没有写入，绝不能执行被截断的程序
+		err := errors.New("E1: 指令过长，超出虚拟机指令容量 (program too long)")
+		ctx.Error = err
+		return err
+	}
+
 	ctx.code = p.cur.data.code
 	ctx.codeIndex = p.cur.data.codeIndex
 
